@@ -191,12 +191,15 @@ fn from_elems(op: &'static str, sig: &'static [Fld], e: &[SyntaxElem], unslot: &
     Some(NM { op, fields })
 }
 
-fn gen_payload(lang: &str, op: &str, r: &mut Rng) -> String {
+fn gen_payload(lang: &str, op: &str, k: usize, r: &mut Rng) -> String {
     match (lang, op) {
+        (_, "proj") if k >= 1 => format!("{}", r.below(6)),
+        (_, "flag2") if k >= 1 => format!("{}", r.below(6)),
         (_, "ch") => ["a", "Z", "7", "é"][r.below(4)].to_string(),
         (_, "big") | (_, "neg") => ["-5", "0", "123456789012", "-9223372036854775808"][r.below(4)].to_string(),
         (_, "flag") => ["true", "false"][r.below(2)].to_string(),
-        (_, "tag") => ["foo", "x1", "bar"][r.below(3)].to_string(),
+        (_, "tag") | (_, "proj") => ["foo", "x1", "bar"][r.below(3)].to_string(),
+        (_, "flag2") => ["true", "false"][r.below(2)].to_string(),
         (_, "#sym") => ["abc", "q", "zz9"][r.below(3)].to_string(),
         _ => format!("{}", r.below(5)),
     }
@@ -235,7 +238,10 @@ fn gen_node(lang: &'static LangSig, o: &'static OpSig, r: &mut Rng, alphabet: u3
                 }
                 fields.push(MF::X(bs, r.below(alphabet as usize) as u32));
             }
-            Fld::P => fields.push(MF::P(gen_payload(lang.name, o.name, r))),
+            Fld::P => {
+                let k = fields.iter().filter(|f| matches!(f, MF::P(_))).count();
+                fields.push(MF::P(gen_payload(lang.name, o.name, k, r)))
+            }
         }
     }
     NM { op: o.name, fields }
@@ -424,7 +430,10 @@ fn run_lang<L: Language>(lang: &'static LangSig, rng: &mut Rng, n: usize, exhaus
                 for base in &nodes {
                     let opts: Vec<MF> = match f {
                         Fld::S => (0..3).map(MF::S).collect(),
-                        Fld::P => vec![MF::P(gen_payload(lang.name, o.name, rng))],
+                        Fld::P => {
+                            let k = base.fields.iter().filter(|f| matches!(f, MF::P(_))).count();
+                            vec![MF::P(gen_payload(lang.name, o.name, k, rng))]
+                        }
                         Fld::X(k) => {
                             let mut v = vec![];
                             for bs in binder_lists(*k) {
